@@ -373,7 +373,7 @@ def main():
                 tech = tech + "; " + R27[pid]
                 text = text + " Round 27 (DESIGN §10.26) adds: " + R27[pid] + "."
                 ref = ref + ", §10.26"
-            text = text + " The thorough tier also replays the independently written behaviour-preserving refactorings of /verif/benign (DESIGN §10.8, §10.9, §10.11, §10.13, §10.15, §10.17, §10.19, §10.21, §10.23, §10.25) and fails if one of them is reported."
+            text = text + " The thorough tier also replays the independently written behaviour-preserving refactorings of /verif/benign (DESIGN §10.8, §10.9, §10.11, §10.13, §10.15, §10.17, §10.19, §10.21, §10.23, §10.25, §10.27) and fails if one of them is reported."
             checks.append({
                 "property_id": pid,
                 "quick_cmd": "./check %s quick" % pid,
